@@ -2386,6 +2386,7 @@ setattr_trait(
     int rc;
     int changed;
     int do_notifiers;
+    int materialized = 0;
     trait_post_setattr post_setattr;
     PyListObject *tnotifiers = NULL;
     PyListObject *onotifiers = NULL;
@@ -2507,6 +2508,7 @@ setattr_trait(
                     Py_DECREF(value);
                     return -1;
                 }
+                materialized = 1;
                 if (post_setattr != NULL) {
                     rc = post_setattr(traitd, obj, name, old_value);
                     if (rc < 0) {
@@ -2552,6 +2554,13 @@ setattr_trait(
             rc = call_notifiers(
                 tnotifiers, onotifiers, obj, name, old_value, new_value);
         }
+    }
+    else if (materialized && do_notifiers) {
+        /* The default value was materialized by this assignment and is the
+           very object being assigned: announce the materialization the way
+           getattr_trait does when the default is first read. */
+        rc = call_notifiers(
+            tnotifiers, onotifiers, obj, name, Uninitialized, new_value);
     }
 
     Py_XDECREF(old_value);
